@@ -125,6 +125,26 @@ def run_impl(ir_module, module, fname, inputs):
     return out
 
 
+def opt_struct(m0, m1):
+    """Lean model of the optimiser applied to the implementation's unoptimised IR vs the implementation's optimised IR
+    (canonical forms), and the side conditions of the soundness theorem on this instance."""
+    d = driver()
+    out = {}
+    try:
+        p0 = implrun.program_sexp(m0.Functions, m0.Globals)
+        p1 = implrun.program_sexp(m1.Functions, m1.Globals)
+    except BaseException as e:
+        return {"opt_diff": "dump failed: %s" % type(e).__name__}
+    if d.ask("irprog " + p0) != "ok":
+        return {"opt_diff": "driver cannot parse the unoptimised IR"}
+    out["fwdok"] = d.ask("fwdok")
+    try:
+        out["opt_diff"] = ir_diff(canon_ir(p1), canon_ir(d.ask("opt")))
+    except Exception as e:
+        out["opt_diff"] = "canonicalisation failed: %r" % (e,)
+    return out
+
+
 def eval_program(module, fname, inputs, want=("ref", "model", "irrun", "wf", "opt", "struct")):
     """Everything the checks need to know about one program. Returns a dict (JSON-able)."""
     f = module.find(fname)
@@ -182,6 +202,8 @@ def eval_program(module, fname, inputs, want=("ref", "model", "irrun", "wf", "op
                     rec["ir_diff"] = ir_diff(ii, mi)
                 except Exception as e:
                     rec["ir_diff"] = "canonicalisation failed: %r" % (e,)
+    if "optstruct" in want and c0[0] == 'ok' and c1 is not None and c1[0] == 'ok':
+        rec.update(opt_struct(c0[1].IRModule, c1[1].IRModule))
     for tag, c in (("0", c0), ("1", c1)):
         if c is None or c[0] != 'ok': continue
         if "irrun" in want or "wf" in want:
